@@ -1,4 +1,5 @@
 import OnetVerif.Model.Util
+import OnetVerif.Model.C01Send
 /-! Model for property C01: the receiving side of one server for one tree id — arrival of
 protocol messages, parking while the tree is unknown, the tree request, the tree store entry
 and the flushes of the parked messages.  One thread step per region between two hook points of
@@ -178,6 +179,24 @@ def step (s : State) (toks : List String) : State × String :=
       | some x => let x := drain x; (set s t x, obs x)
       | none => (s, "disabled")
     | none => (s, "bad-op")
+  -- sending side: `send <parents: -,0,0,1,…> <me> <to:j|children|parent|bcast|multi:j,k>` answers the
+  -- addressed nodes, sorted
+  | ["send", par, me, pat] =>
+    let parents : Option (List (Option Nat)) :=
+      (par.splitOn ",").mapM fun x => if x = "-" then some none else x.toNat?.map some
+    let pat? : Option Send.Pattern :=
+      if pat = "children" then some .children
+      else if pat = "parent" then some .parent
+      else if pat = "bcast" then some .bcast
+      else match pat.splitOn ":" with
+        | ["to", j] => j.toNat?.map .to
+        | ["multi", js] => (Util.natList js).map .multi
+        | _ => none
+    match parents, me.toNat?, pat? with
+    | some ps, some me, some p =>
+      let d := Send.dests ⟨ps⟩ me p
+      (s, Util.showNatList (d.toArray.qsort (· < ·)).toList)
+    | _, _, _ => (s, "bad-op")
   | _ => (s, "bad-op")
 
 end Drv
